@@ -519,7 +519,7 @@ def _byte_copy(ctx):
                 ty = assigned_target(y)
                 if ty and const_int(ty[1]) == 0:
                     lhs = strip_casts(peel(ty[0]))
-                    if lhs is not None and lhs.get("k") in ("idx", "sub", "index") and any((z.get("d") == b) for z in walk(lhs) if z.get("k") == "ref"):
+                    if lhs is not None and lhs.get("k") == "idx" and any((z.get("d") == b) for z in walk(lhs) if z.get("k") == "ref"):
                         terms.append(y)
                     elif lhs is not None and lhs.get("k") == "un" and lhs.get("op") == "*" and any((z.get("d") == b) for z in walk(lhs) if z.get("k") == "ref"):
                         terms.append(y)
